@@ -86,10 +86,13 @@ pub fn run(opts: &Opts) -> i32 {
   // (1) systematic: every character at every position of every row, with and without a right-shift trigger
   let chars = all_chars();
   let mut idx = 0u64;
+  let aux = opts.num("aux", 0) == 1;
   for row in 0..5 {
     let len = row_keys(row).len();
     for pos in 0..len {
-      for ch in &chars {
+      if aux && pos % 5 != 0 { continue; }
+      for (ci, ch) in chars.iter().enumerate() {
+        if aux && ci % 12 != 0 { continue; }
         for variant in 0..3 {
           idx += 1;
           if idx % opts.nshards != opts.shard { continue; }
